@@ -158,7 +158,7 @@ class C12(Sim):
     PROBES = ["zero_vector", "point_box", "empty_box", "empty_intersection", "infinite_box", "raising_call",
               "errmode_nondefault", "errmode_flip", "shared_array_boxes", "pad_aliased_box", "boundary_point", "contained_point",
               "outside_point", "degenerate_triangle", "parallel_lines", "parallel_vectors", "inplace_normalize", "mesh_box",
-              "tiny_scale", "huge_scale", "same_array_twice", "needle_corner", "integer_vector_rotated", "mesh_vertex_moved", "caller_overwrites_array", "roots_asked_again"]
+              "tiny_scale", "huge_scale", "same_array_twice", "needle_corner", "integer_vector_rotated", "mesh_vertex_moved", "caller_overwrites_array", "roots_asked_again", "extreme_corner"]
     QUICK_RUNS = 8000
     THOROUGH_RUNS = 1000000
     BLOCK = 100
@@ -167,7 +167,9 @@ class C12(Sim):
         "Python lists as box corners are only used where they are copied by construction (AABB(list, list))",
         "all input coordinates are finite; non-zero coordinates have magnitude m*10^e with 1e-3 <= |m| <= 10 and one exponent e per "
         "array, e in {-40,-8,-3,0,3,8,40} per run (optionally +-3 per array): products of up to six coordinates stay inside the normal "
-        "float64 range, so no law is evaluated where overflow/underflow is legitimate; infinities only occur as corners of AABB.infinite",
+        "float64 range, so no law is evaluated where overflow/underflow is legitimate; infinities only occur as corners of AABB.infinite; "
+        "the one exception is cotan_far: cotan on literal well-shaped corners of magnitude 1e+-60 .. 1e+-120, where squares of the sides "
+        "stay normal float64 numbers (all the function needs after normalising its two sides)",
         "laws that need non-degenerate inputs are evaluated only when the exact rational classification says so with a margin: "
         "cotan (|sin|,|cos| of the angle >= 1e-3 for the reciprocal-tangent link, |sin| >= 1e-3 for the exact value, both sides "
         "longer than 1e-3 of the largest coordinate), signed-angle "
@@ -707,6 +709,18 @@ class C12(Sim):
                 C = [b + k * (a - b) + (tiny if q == j else 0.0) for q, (a, b) in enumerate(zip(A, B))]
                 self._sliver = [ia, ib, self.next_arr]
                 return self._new_arr(C)
+        if "cotan" in ops and r.chance(0.04):
+            # a well-shaped corner very far from / very close to the origin of the exponent range ("all finite inputs"): literal points,
+            # exponent +-60 .. +-120 (squares of the sides stay normal float64 numbers, sixth powers do not)
+            E = r.choice([-120, -90, -81, -60, 60, 90, 120])
+            B = self._gen_vec(r, 3, E)
+            L = r.uniform(0.5, 8.0) * 10.0 ** E
+            th = r.uniform(0.2, 2.9)
+            j, k = r.sample([0, 1, 2], 2)
+            q = r.uniform(0.3, 3.0)
+            A = [b + (L if t == j else 0.0) for t, b in enumerate(B)]
+            C = [b + (q * L * math.cos(th) if t == j else (q * L * math.sin(th) if t == k else 0.0)) for t, b in enumerate(B)]
+            return {"op": "cotan_far", "pts": [A, B, C]}
         rp = getattr(self, "_replay_ev", None)
         if rp is not None:
             self._replay_ev = None
@@ -1582,6 +1596,30 @@ class C12(Sim):
                 self._bad_value("cotan-reciprocal-tangent", "cotan", "geometry.cotan*tan(angle_3pts)", ac,
                                 "cotan = %r, angle_3pts = %r, product cotan*tan(angle) = %r" % (
                                     out.value, o2.value, float(out.value) * math.tan(float(o2.value)) if is_num(o2.value) else None))
+        return self._done(out)
+
+    def _op_cotan_far(self, ev):
+        """cotan on literal points of extreme magnitude (the caller's own fresh arrays, outside the pool)"""
+        own = [np.array(p, dtype=np.float64) for p in ev["pts"]]
+        before = [a.tobytes() for a in own]
+        out = self._call(ev, self.G.cotan, self.Vec(own[0]), self.Vec(own[1]), self.Vec(own[2]))
+        self.probes["extreme_corner"] += 1
+        if [a.tobytes() for a in own] != before:
+            self.violation("no-side-effects", "cotan_far", "argument_changed", "geometry.cotan", "extreme", "cotan changed one of its argument arrays")
+        A, B, C = (fx(p) for p in ev["pts"])
+        u, v = xsub(A, B), xsub(C, B)
+        cr = xcross(u, v)
+        s2, c, uu, vv = xdot(cr, cr), xdot(u, v), xdot(u, u), xdot(v, v)
+        M2 = max(abs(x) for p in (A, B, C) for x in p) ** 2
+        # judged only where the corner is well shaped in exact arithmetic: sine >= 0.05, both sides longer than 1/100 of the coordinates
+        if not (uu > 0 and vv > 0 and s2 * 400 >= uu * vv and min(uu, vv) * 10000 >= M2):
+            return self._done(out)
+        self._need_ok(out, "cotan-reciprocal-tangent", "cotan", "extreme")
+        exp = math.sqrt(float(c * c / s2)) * (1 if c > 0 else (-1 if c < 0 else 0))
+        self.laws += 1
+        if not is_num(out.value) or abs(float(out.value) - exp) > 1e-7 * (1 + abs(exp)):
+            self._bad_value("cotan-reciprocal-tangent", "cotan", "geometry.cotan", "extreme",
+                            "cotan(%r, %r, %r) = %r, cos/sin of the angle is %r" % (ev["pts"][0], ev["pts"][1], ev["pts"][2], out.value, exp))
         return self._done(out)
 
     def _op_circumcenter(self, ev):
